@@ -9,6 +9,13 @@
 #include <frg/macros.hpp>
 #include <frg/utility.hpp>
 
+#ifdef FRG_VERIF_HOOKS
+#include <frg/verif_hooks.hpp>
+#endif
+#ifndef FRG_VERIF_POINT
+#define FRG_VERIF_POINT(site, obj, v) do { } while(0)
+#endif
+
 namespace frg FRG_VISIBILITY {
 
 template<typename M>
@@ -109,10 +116,13 @@ struct qs_agent {
 //			std::cout << "Now there are " << _dom->_num_agents << " agents" << std::endl;
 
 			// Increment the QS counter if we're the first agent.
+			FRG_VERIF_POINT("qs.online.load_counter", _dom, 0);
 			ctr = _dom->_qs_counter.load(std::memory_order_relaxed);
 			if(_dom->_num_agents == 1) {
 				FRG_ASSERT(!_dom->_agents_to_ack.load(std::memory_order_relaxed));
+				FRG_VERIF_POINT("qs.online.store_acks", _dom, 1);
 				_dom->_agents_to_ack.store(1, std::memory_order_relaxed);
+				FRG_VERIF_POINT("qs.online.store_counter", _dom, ctr + 1);
 				_dom->_qs_counter.store(ctr + 1, std::memory_order_release);
 			}
 		}
@@ -132,13 +142,17 @@ struct qs_agent {
 			_dom->_num_agents--;
 
 			// We might need to ack before going offline.
+			FRG_VERIF_POINT("qs.offline.load_counter", _dom, 0);
 			auto ctr = _dom->_qs_counter.load(std::memory_order_relaxed);
 			if(_acked_qs_counter != ctr) {
 				FRG_ASSERT(_acked_qs_counter + 1 == ctr);
 
 				// Now ack the QS.
+				FRG_VERIF_POINT("qs.offline.ack", _dom, ctr);
 				if(_dom->_agents_to_ack.fetch_sub(1, std::memory_order_acq_rel) == 1) {
+					FRG_VERIF_POINT("qs.offline.store_acks", _dom, _dom->_num_agents);
 					_dom->_agents_to_ack.store(_dom->_num_agents, std::memory_order_relaxed);
+					FRG_VERIF_POINT("qs.offline.store_counter", _dom, ctr + 1);
 					_dom->_qs_counter.store(ctr + 1, std::memory_order_release);
 				}
 			}
@@ -153,28 +167,36 @@ struct qs_agent {
 		if(_qs_deferred) {
 			FRG_ASSERT(_acked_qs_counter == _dom->_qs_counter.load(std::memory_order_relaxed));
 
+			FRG_VERIF_POINT("qs.qs.deferred.load_desired", _dom, _acked_qs_counter);
 			auto desired = _dom->_desired_qs_counter.load(std::memory_order_relaxed);
 			if(desired > _acked_qs_counter) {
 				lock_guard<M> lock(_dom->_mutex);
 //				std::cout << "Deferred QS " << (_acked_qs_counter + 1) << ". Resetting ack counter to " << _dom->_num_agents << std::endl;
+				FRG_VERIF_POINT("qs.qs.deferred.store_acks", _dom, _dom->_num_agents);
 				_dom->_agents_to_ack.store(_dom->_num_agents, std::memory_order_relaxed);
+				FRG_VERIF_POINT("qs.qs.deferred.store_counter", _dom, _acked_qs_counter + 1);
 				_dom->_qs_counter.store(_acked_qs_counter + 1, std::memory_order_release);
 
 				_qs_deferred = false;
 			}
 		}else{
 			// Check if the QS counter incremented concurrently.
+			FRG_VERIF_POINT("qs.qs.load_counter", _dom, _acked_qs_counter);
 			auto ctr = _dom->_qs_counter.load(std::memory_order_acquire);
 			if(_acked_qs_counter != ctr) {
 				FRG_ASSERT(_acked_qs_counter + 1 == ctr);
 
 				// Now ack the QS.
+				FRG_VERIF_POINT("qs.qs.ack", _dom, ctr);
 				if(_dom->_agents_to_ack.fetch_sub(1, std::memory_order_acq_rel) == 1) {
+					FRG_VERIF_POINT("qs.qs.load_desired", _dom, ctr);
 					auto desired = _dom->_desired_qs_counter.load(std::memory_order_relaxed);
 					if(desired > ctr) {
 						lock_guard<M> lock(_dom->_mutex);
 //						std::cout << "QS " << (ctr + 1) << ". Resetting ack counter to " << _dom->_num_agents << std::endl;
+						FRG_VERIF_POINT("qs.qs.store_acks", _dom, _dom->_num_agents);
 						_dom->_agents_to_ack.store(_dom->_num_agents, std::memory_order_relaxed);
+						FRG_VERIF_POINT("qs.qs.store_counter", _dom, ctr + 1);
 						_dom->_qs_counter.store(ctr + 1, std::memory_order_release);
 					}else{
 						_qs_deferred = true;
@@ -188,24 +210,31 @@ struct qs_agent {
 
 	void quiescent_barrier() {
 		// Advance the desired QS counter.
+		FRG_VERIF_POINT("qs.barrier.load_counter", _dom, 0);
 		auto target = _dom->_qs_counter.load(std::memory_order_relaxed) + 2;
+		FRG_VERIF_POINT("qs.barrier.load_desired", _dom, target);
 		auto c = _dom->_desired_qs_counter.load(std::memory_order_relaxed);
 		while(c < target) {
+			FRG_VERIF_POINT("qs.barrier.cas_desired", _dom, target);
 			if(_dom->_desired_qs_counter.compare_exchange_weak(c, target,
 					std::memory_order_relaxed, std::memory_order_relaxed))
 				break;
 		}
 
 		while(_dom->_qs_counter.load(std::memory_order_acquire) < target) {
+			FRG_VERIF_POINT("spin:qs.barrier.wait", _dom, target);
 			quiescent_state();
 		}
 	}
 
 	void await_barrier(qs_node *node) {
 		// Advance the desired QS counter.
+		FRG_VERIF_POINT("qs.barrier.load_counter", _dom, 0);
 		auto target = _dom->_qs_counter.load(std::memory_order_relaxed) + 2;
+		FRG_VERIF_POINT("qs.barrier.load_desired", _dom, target);
 		auto c = _dom->_desired_qs_counter.load(std::memory_order_relaxed);
 		while(c < target) {
+			FRG_VERIF_POINT("qs.barrier.cas_desired", _dom, target);
 			if(_dom->_desired_qs_counter.compare_exchange_weak(c, target,
 					std::memory_order_relaxed, std::memory_order_relaxed))
 				break;
@@ -217,6 +246,7 @@ struct qs_agent {
 	}
 
 	void run() {
+		FRG_VERIF_POINT("qs.run.load_counter", _dom, 0);
 		auto ctr = _dom->_qs_counter.load(std::memory_order_acquire);
 		while(!_pending.empty()) {
 			auto node = _pending.front();
@@ -225,7 +255,9 @@ struct qs_agent {
 			// Unlink the node first: the callback is allowed to free or reuse it.
 			_pending.pop_front();
 			node->_target_qs_counter = 0;
+			FRG_VERIF_POINT("qs.run.callback", node, ctr);
 			node->on_grace_period(node);
+			FRG_VERIF_POINT("qs.run.callback_returned", this, ctr);
 		}
 	}
 
